@@ -52,4 +52,11 @@ PROPS = {
         "(hang = no enabled operation for 120 s of fake time), end-of-request visibility, Send-after-finish errors, outcome equality, sticky Receive "
         "errors, goroutine leaks (stack scan of the bubble) and response-body Close; distinct = distinct scheduler-log hash among runs with >= 2 candidates",
         4000, 300000),
+    "C15": e2e(
+        "each run = one seeded call with exactly one of: a canceller task (its release step is the cancellation instant, so every instant between two "
+        "scheduling steps is reachable), a cancel operation between two program operations (incl. before the call), a deadline on the fake clock "
+        "(1 us .. 30 ms against handler sleeps), or a handler that returns a context error of its own; handlers sleep / wait for their context; "
+        "checked by step number / fake time: operations started after the instant fail with canceled / deadline_exceeded (Send may return io.EOF), "
+        "final outcome never success; distinct = distinct scheduler-log hash among runs with >= 2 candidates",
+        4000, 300000),
 }
